@@ -13,6 +13,7 @@ corresponds to one or two of the reference (`swap; eval`, `cons`, `apply [; eval
 import ClvmProofs.Lemmas.RefMachine
 import ClvmProofs.Lemmas.RefLoops
 import ClvmProofs.Lemmas.RefBits
+import ClvmProofs.Lemmas.RefUnknown
 import ClvmProofs.Lemmas.Interp.MachineStepWf
 import ClvmProofs.Lemmas.Interp.LiftCore
 
@@ -26,13 +27,21 @@ def coreAd0 : Adapters := Adapter.coreFragment (Proto.c01Adapters false)
 /-- opcodes of the classic operators whose per-operator agreement (`ref_op_eq_*`) is proved -/
 def provedOps : List Nat := [3, 4, 5, 6, 7, 8, 9, 10, 11, 12, 13, 14, 16, 17, 18, 19, 20, 21, 22, 23, 24, 25, 26, 27, 32, 33, 34]
 
-/-- operators that end the comparison for now: everything that is not a proved classic operator —
-every operator the reference treats as unknown
-(and 29, 30 and the newer assigned opcodes, which are outside C01 anyway) -/
-def unprovedOp (ob : Bytes) : Bool := !(provedOps.any (fun k => ob == [UInt8.ofNat k]))
+/-- the operator atom is the opcode of a classic operator with its own `op_` function -/
+def knownKey (ob : Bytes) : Bool := provedOps.any (fun k => ob == [UInt8.ofNat k])
 
-/-- the adapters of the machine-level theorem: core fragment, unproved operators excluded -/
-def coreAd : Adapters := Adapter.restrictOps unprovedOp coreAd0
+/-- the region of finding B: an unknown operator whose cost product `base · (multiplier + 1)` —
+computed the reference's way — reaches `2^64` (there the pre-hard-fork `op_unknown` wraps) -/
+def wraps (ob : Bytes) (t : Tree) : Bool :=
+  match unknownBaseCost (unknownCostFunction ob) t with
+  | .ok cost => decide (cost * unknownCostMultiplier ob ≥ 2 ^ 64)
+  | .error _ => false
+
+/-- calls that end the comparison: an unknown operator inside the region of finding B -/
+def exclCall (ob : Bytes) (t : Tree) : Bool := !knownKey ob && wraps ob t
+
+/-- the adapters of the machine-level theorem: core fragment, finding-B region excluded -/
+def coreAd : Adapters := Adapter.restrictCalls exclCall coreAd0
 
 /-- `ChiaDialect::new(ClvmFlags::empty())` -/
 def dial : Dialect := chiaDialect {} Proto.noExtra 0
@@ -908,7 +917,7 @@ def DispRel (m : Nat) (mo : Option (Except Err (Nat × Val × Ctr))) (ro : Res) 
 /-- the dispatch tables agree: `ChiaDialect::op` under default flags, outside a guard, against the
 adapted `operator_lookup` (for every operator but `a` and opcode 36, which `apply_op` handles itself) -/
 def DispatchAgree : Prop :=
-  ∀ (ob : Bytes) (oi : Bool) (al : Val) (m : Nat) (c : Ctr),
+  ∀ (ob : Bytes) (oi : Bool) (al : Val) (m : Nat) (c : Ctr), m < 2 ^ 64 →
     (Val.atom ob oi).wf = true → al.wf = true → Proper al →
     ob ≠ [UInt8.ofNat 2] → ob ≠ [UInt8.ofNat 36] →
     DispRel m (dial.op (.atom ob oi) al m .Default c) (coreAd.lookup none operatorLookup ob al.erase)
@@ -938,7 +947,7 @@ theorem rloop_succ_eval' (B fr cost : Nat) (ops : List Op) (vals : List Tree) (g
   | error e => rfl
   | ok r => rfl
 
-theorem apply_case (hD : DispatchAgree) (B : Nat) : ApplyCase B := by
+theorem apply_case (hD : DispatchAgree) (B : Nat) (hB : B < 2 ^ 64) : ApplyCase B := by
   intro fm fr f K sr sm cost ro mo ih hc h hpend hr hm
   obtain ⟨hpw, hew, how, haw, hap, ob, oi, hop⟩ := h.fok
   have hmo : sm.opStack = Operation.Apply :: opsM K := by rw [h.mo]; simp [argsOpsM, hpend]
@@ -1072,7 +1081,7 @@ theorem apply_case (hD : DispatchAgree) (B : Nat) : ApplyCase B := by
       have hce : curExt sb = .Default := by simp [curExt, sbs]
       unfold applyOrdinary at hm
       rw [hce] at hm
-      have hd := hD ob oi f.acc (B - cost) sb.ctr how haw hap ha hs
+      have hd := hD ob oi f.acc (B - cost) sb.ctr (by omega) how haw hap ha hs
       refine after_agree ih ?_ hrr hm
       unfold DispRel at hd
       cases hmo' : dial.op (Val.atom ob oi) f.acc (B - cost) OperatorSet.Default sb.ctr with
@@ -1149,20 +1158,190 @@ theorem chiaOp_classic {k : Nat} {name : String} {f : OpFn} {ob : Bytes} {oi : B
     show ((1 : Nat) != 1) = false by decide, hs, hk, bne_self_eq_false, Bool.false_and, hn, hf]
   rfl
 
+/-! #### operators without an `op_` function: the unknown-operator rule -/
+
+theorem map_single {ob : Bytes} {k : Nat} (h : ob.map UInt8.toNat = [k]) : ob = [UInt8.ofNat k] := by
+  match ob, h with
+  | [x], h =>
+    simp only [List.map, List.cons.injEq, and_true] at h
+    subst h; simp
+
+/-- the opcodes with an entry in the reference's keyword table -/
+def keywordList : List Nat := provedOps ++ [29, 30, 36]
+
+theorem operatorLookup_default (ob : Bytes) (t : Tree) (h : ∀ k ∈ keywordList, ob.map UInt8.toNat ≠ [k]) :
+    operatorLookup ob t = defaultUnknownOp ob t := by
+  unfold operatorLookup
+  split <;> first
+    | rfl
+    | (rename_i heq; exact absurd heq (h _ (by decide)))
+
+/-- what the dispatch table of the model holds for one-byte opcodes -/
+def tableOK (op : Nat) : Bool :=
+  match lookupOp Gen.chiaOpTable op with
+  | none => true
+  | some (_, req) => (req != 0 && !hasFlag 0 req) || provedOps.contains op || (Proto.assignedWith 0).contains [UInt8.ofNat op]
+
+theorem tableOK_all : ∀ op, op < 256 → tableOK op = true := by decide +kernel
+theorem knownKey_of_contains {op : Nat} (h : provedOps.contains op = true) : knownKey [UInt8.ofNat op] = true := by
+  unfold knownKey
+  rw [List.any_eq_true]
+  exact ⟨op, by simpa using h, by simp⟩
+
+theorem secp1 : beNat [0x13, 0xd6, 0x1f, 0x00] = 332799744 := by decide
+theorem secp2 : beNat [0x1c, 0x3a, 0x8f, 0x00] = 473599744 := by decide
+
+/-- `ChiaDialect::op` on an operator atom that is neither a proved classic opcode nor assigned:
+the unknown-operator path -/
+theorem chiaOp_unknown (ob : Bytes) (oi : Bool) (al : Val) (m : Nat) (c : Ctr)
+    (how : (Val.atom ob oi).wf = true) (hu : knownKey ob = false)
+    (hna : (Proto.assignedWith 0).contains ob = false) :
+    dial.op (.atom ob oi) al m .Default c = some (unknownOperator ob al 0 m c) := by
+  rw [dial_op_eq]
+  unfold chiaOp
+  simp only [Nat.or_self]
+  by_cases h4 : ob.length = 4
+  · have h4' : (ob.length == 4) = true := by simp [h4]
+    simp only [h4', if_true]
+    have hfind : Gen.chiaOp4Table.find? (fun e => e.1 == beNat ob) = none := by
+      simp only [Gen.chiaOp4Table, List.find?]
+      by_cases e1 : beNat ob = 332799744
+      · exfalso
+        have : ob = [0x13, 0xd6, 0x1f, 0x00] := beNat_inj ob _ h4 (by rw [e1, secp1])
+        subst this
+        have : (Proto.assignedWith 0).contains [0x13, 0xd6, 0x1f, 0x00] = true := by decide
+        rw [this] at hna; cases hna
+      · by_cases e2 : beNat ob = 473599744
+        · exfalso
+          have : ob = [0x1c, 0x3a, 0x8f, 0x00] := beNat_inj ob _ h4 (by rw [e2, secp2])
+          subst this
+          have : (Proto.assignedWith 0).contains [0x1c, 0x3a, 0x8f, 0x00] = true := by decide
+          rw [this] at hna; cases hna
+        · have e1' : ((332799744 : Nat) == beNat ob) = false := by simp; omega
+          have e2' : ((473599744 : Nat) == beNat ob) = false := by simp; omega
+          simp [e1', e2']
+    rw [hfind]
+  · have h4' : (ob.length == 4) = false := by simp [h4]
+    simp only [h4', Bool.false_eq_true, if_false]
+    by_cases h1 : ob.length = 1
+    · have h1' : (ob.length != 1) = false := by simp [h1]
+      simp only [h1', Bool.false_eq_true, if_false]
+      cases hsn : smallNumber (Val.atom ob oi) with
+      | none => rfl
+      | some op =>
+        simp only
+        -- `ob = [x]`, `op = x.toNat`
+        match ob, h1 with
+        | [x], _ =>
+          have hop : op = x.toNat := by
+            cases oi with
+            | false =>
+              simp only [smallNumber] at hsn
+              have := fits_beNat hsn
+              simpa [beNat] using this
+            | true =>
+              simp only [smallNumber, Option.some.injEq] at hsn
+              simpa [beNat] using hsn.symm
+          have hx : [x] = [UInt8.ofNat op] := by rw [hop]; simp
+          have hlt : op < 256 := by rw [hop]; exact x.toNat_lt
+          have htab := tableOK_all op hlt
+          unfold tableOK at htab
+          cases hl : lookupOp Gen.chiaOpTable op with
+          | none => rfl
+          | some nr =>
+            obtain ⟨name, req⟩ := nr
+            rw [hl] at htab
+            simp only [Bool.or_eq_true] at htab
+            rcases htab with (hreq | hkey) | hasg
+            · simp only [hreq, if_true]
+            · exfalso
+              have := knownKey_of_contains hkey
+              rw [← hx, hu] at this; cases this
+            · exfalso
+              rw [← hx, hna] at hasg; cases hasg
+    · have h1' : (ob.length != 1) = true := by simp [h1]
+      simp only [h1', if_true]
+
+theorem coreAd0_lookup (base : Bytes → Tree → Res) (ob : Bytes) (t : Tree) :
+    coreAd0.lookup none base ob t =
+      Adapter.lookup (Proto.assignedWith 0) (fun ext => Proto.assignedWith (Proto.extensionFlags ext)) none base ob t := rfl
+
+/-- the adapted `operator_lookup` on such an operator atom: `default_unknown_op` -/
+theorem refLookup_unknown (ob : Bytes) (t : Tree) (hu : knownKey ob = false)
+    (hna : (Proto.assignedWith 0).contains ob = false) (hs : ob ≠ [UInt8.ofNat 36]) (hw : wraps ob t = false) :
+    coreAd.lookup none operatorLookup ob t = defaultUnknownOp ob t := by
+  have hkeys : ∀ k ∈ keywordList, ob.map UInt8.toNat ≠ [k] := by
+    intro k hk heq
+    have hob := map_single heq
+    simp only [keywordList, List.mem_append, List.mem_cons, List.mem_nil_iff, or_false] at hk
+    rcases hk with hk | rfl | rfl | rfl
+    · have := knownKey_of_contains (op := k) (by simpa using hk)
+      rw [← hob, hu] at this; cases this
+    · subst hob
+      have : (Proto.assignedWith 0).contains [UInt8.ofNat 29] = true := by decide
+      rw [this] at hna; cases hna
+    · subst hob
+      have : (Proto.assignedWith 0).contains [UInt8.ofNat 30] = true := by decide
+      rw [this] at hna; cases hna
+    · exact hs hob
+  have h19 : (ob.map UInt8.toNat == [0x13]) = false := by
+    cases hb : (ob.map UInt8.toNat == [0x13]) with
+    | false => rfl
+    | true => exact absurd (by simpa using hb) (hkeys 19 (by decide))
+  show (if exclCall ob t = true then _ else _) = _
+  have hex : exclCall ob t = false := by simp [exclCall, hw]
+  rw [hex]
+  simp only [Bool.false_eq_true, if_false]
+  rw [coreAd0_lookup]
+  unfold Adapter.lookup Adapter.newOperators
+  simp only [hna, Bool.false_eq_true, if_false, h19]
+  exact operatorLookup_default ob t hkeys
+
+theorem dispatch_unknown (ob : Bytes) (oi : Bool) (al : Val) (m : Nat) (c : Ctr) (hm : m < 2 ^ 64)
+    (how : (Val.atom ob oi).wf = true) (haw : al.wf = true) (hap : Proper al)
+    (ha : ob ≠ [UInt8.ofNat 2]) (hs : ob ≠ [UInt8.ofNat 36]) (hu : knownKey ob = false) :
+    DispRel m (dial.op (.atom ob oi) al m .Default c) (coreAd.lookup none operatorLookup ob al.erase) := by
+  unfold DispRel
+  by_cases hna : (Proto.assignedWith 0).contains ob = true
+  · -- assigned by a later consensus change: outside C01
+    have hout : coreAd.lookup none operatorLookup ob al.erase = .error .outOfDomain := by
+      show (if exclCall ob al.erase = true then _ else _) = _
+      by_cases hex : exclCall ob al.erase = true
+      · rw [if_pos hex]
+      · rw [if_neg hex]
+        rw [coreAd0_lookup]
+        unfold Adapter.lookup Adapter.newOperators
+        rw [if_pos hna]
+    cases dial.op (Val.atom ob oi) al m OperatorSet.Default c with
+    | none => exact hout
+    | some _ => exact Or.inl hout
+  · have hna' : (Proto.assignedWith 0).contains ob = false := by simpa using hna
+    rw [chiaOp_unknown ob oi al m c how hu hna']
+    by_cases hw : wraps ob al.erase = true
+    · -- the region of finding B
+      left
+      show (if exclCall ob al.erase = true then _ else _) = _
+      have hex : exclCall ob al.erase = true := by simp [exclCall, hu, hw]
+      rw [if_pos hex]
+    · have hw' : wraps ob al.erase = false := by simpa using hw
+      right
+      rw [refLookup_unknown ob al.erase hu hna' hs hw']
+      refine unknown_agree ob m al c hap hm ?_
+      intro cost hc
+      unfold wraps at hw'
+      rw [hc] at hw'
+      simpa using hw'
+
 /-- **the dispatch tables agree** on every operator of the fragment: the proved classic operators are
 dispatched to the operator functions that the `ref_op_eq_*` lemmas relate; every other operator ends
 the comparison on the reference side -/
 theorem dispatch_agree : DispatchAgree := by
-  intro ob oi al m c how haw hap ha hs
+  intro ob oi al m c hm how haw hap ha hs
   unfold DispRel
-  by_cases hu : unprovedOp ob = true
-  · have hout : coreAd.lookup none operatorLookup ob al.erase = .error .outOfDomain := by
-      simp [coreAd, Adapter.restrictOps, hu]
-    cases dial.op (Val.atom ob oi) al m OperatorSet.Default c with
-    | none => exact hout
-    | some _ => exact Or.inl hout
+  by_cases hu : knownKey ob = false
+  · exact dispatch_unknown ob oi al m c hm how haw hap ha hs hu
   · have hex : ∃ k, k ∈ provedOps ∧ ob = [UInt8.ofNat k] := by
-      simpa [unprovedOp] using hu
+      simpa [knownKey] using hu
     obtain ⟨k, hk, rfl⟩ := hex
     simp only [provedOps, List.mem_cons, List.mem_nil_iff, or_false] at hk
     rcases hk with rfl | rfl | rfl | rfl | rfl | rfl | rfl | rfl | rfl | rfl | rfl | rfl | rfl | rfl | rfl | rfl | rfl | rfl | rfl | rfl | rfl | rfl | rfl | rfl | rfl | rfl | rfl
@@ -1286,8 +1465,11 @@ def RunOut (ro : Res) (mo : Except Err (Nat × Val × Ctr)) : Prop :=
   | .error e, .ok _ => BadR e
   | .ok _, .error e' => BadM (.err e')
 
+theorem effBudget_lt {budget : Nat} (hb : budget < 2 ^ 64) : effBudget budget < 2 ^ 64 := by
+  unfold effBudget U64_MAX; split <;> omega
+
 /-- **whole runs on the core fragment** -/
-theorem core_run_agree (prog env : Tree) (budget fuel fuel' : Nat)
+theorem core_run_agree (prog env : Tree) (budget fuel fuel' : Nat) (hb : budget < 2 ^ 64)
     (ro : Res) (mo : Except Err (Nat × Val × Ctr))
     (hr : Ref.runWith coreAd fuel' prog env (Adapter.u64Budget budget) = some ro)
     (hm : modelRun fuel prog env budget = some mo) : RunOut ro mo := by
@@ -1348,7 +1530,7 @@ theorem core_run_agree (prog env : Tree) (budget fuel fuel' : Nat)
         rw [hml] at hm
         have hml' : mAfter (effBudget budget) fuel 0 (.ok (k, s1)) = some ml := by
           simp only [mAfter, Nat.zero_add]; exact hml
-        have hlo := after_agree (fun fr' sr' sm' cost' ro mo => sim (effBudget budget) (apply_case dispatch_agree _) fuel fr' sr' sm' cost' ro mo)
+        have hlo := after_agree (fun fr' sr' sm' cost' ro mo => sim (effBudget budget) (apply_case dispatch_agree _ (effBudget_lt hb)) fuel fr' sr' sm' cost' ro mo)
           hst hr hml'
         cases ml with
         | error e =>
